@@ -254,6 +254,11 @@ func freshCtx(fc *FnCtx, st *State, t types.Type) Val {
 func contextEnv() {
 	for _, pkg := range []string{"context", "golang.org/x/net/context"} {
 		pkg := pkg
+		envInvoke[pkg+".Context.Done"] = func(fc *FnCtx, fr *Frame, st *State, reach string, recv Val, args []Val, call ssa.CallInstruction) Val {
+			v := fc.freshVal(st, resultType(call.Common().Signature().Results()), "done")
+			v.Orig = "ctx.Done"
+			return v
+		}
 		envInvoke[pkg+".Context.Deadline"] = func(fc *FnCtx, fr *Frame, st *State, reach string, recv Val, args []Val, call ssa.CallInstruction) Val {
 			tu := call.Common().Signature().Results()
 			dl, has := ctxDl(fc, recv)
